@@ -51,7 +51,7 @@ def eq_class(kind):
 
 def make_world(NL, kind="distinct"):
     from pydsol.core.pubsub import EventListener, EventProducer
-    T = types("distinct" if kind == "twins" else kind)
+    T = types("distinct" if kind in ("twins", "falsy") else kind)
     ec = eq_class(kind)
 
     class Lst(EventListener):
@@ -65,6 +65,13 @@ def make_world(NL, kind="distinct"):
 
         def __hash__(self):
             return hash(("C08", ec(self.i)))
+
+        def __len__(self):
+            # 'falsy': listeners that are empty containers (an inbox), so
+            # their truth value is False
+            if kind == "falsy":
+                return 0
+            raise TypeError("not a container")
 
         def notify(self, e):
             w = self.w
@@ -292,6 +299,8 @@ def payload_table():
     payloads = [_c.defaultdict(int, {"c": 3}), _c.defaultdict(str, {"a": 1, "x": "q"}),
                 _c.defaultdict(int, {"b": "t", "z": 0}), Lenient({"q": 1}),
                 _c.OrderedDict([("a", 1)]), _c.Counter({"a": 2}),
+                {1: "a", "a": 1}, {None: 1, "a": 2}, {("t",): 1, "a": 1, 2: 0},
+                {b"a": 1, "a": 1},
                 None, "abc", 5, [1], (1, 2), {}, {"a": 1}, {"a": "s"},
                 {"a": 1, "b": "t"}, {"a": 1, "b": 2}, {"a": 1, "c": "t"},
                 {"a": 1, "b": "t", "c": 0}, {"a": None}, {"x": 1.5},
@@ -351,6 +360,9 @@ def payload_table():
                     keys_before = list(pl.keys()) if isinstance(pl, dict) \
                         else None
                     case = (repr(decl), repr(pl), check, path)
+                    if made not in (True, False):
+                        bad.append(("refusal-with-another-exception", made)
+                                   + case)
                     if made is True and not ok:
                         bad.append(("malformed-event-created",) + case)
                     elif made is not True and ok and not has_none(pl):
@@ -468,7 +480,9 @@ def run(ctx):
              ("1 subscribed type x 5 listeners (+1 type for nested fires)",
               2, 5, [0], False),
              ("2 types x 3 listeners of which two compare equal", 2, 3,
-              [0, 1], False, "twins")]
+              [0, 1], False, "twins"),
+             ("2 types x 3 listeners that are empty containers (falsy)", 2,
+              3, [0, 1], False, "falsy")]
     if not quick:
         tasks += [("2 types x 3 listeners, two scripted listeners",
                    2, 3, [0, 1], True),
